@@ -1,12 +1,17 @@
 package mysql
 
-import "github.com/cossacklabs/acra/encryptor/mysql"
+import (
+	encryptor "github.com/cossacklabs/acra/encryptor/base"
+	"github.com/cossacklabs/acra/encryptor/mysql"
+)
 
 // ProtocolState keeps track of MySQL protocol state.
 type ProtocolState struct {
 	pendingParse mysql.OnQueryObject
-	stmtID       uint32
-	fields       []*ColumnDescription
+	// column settings found for pendingParse
+	pendingQuerySettings []*encryptor.QueryDataItem
+	stmtID               uint32
+	fields               []*ColumnDescription
 }
 
 // NewProtocolState makes an initial MySQL state, awaiting for queries.
@@ -24,6 +29,16 @@ func (p *ProtocolState) PendingParse() mysql.OnQueryObject {
 // SetPendingParse set pendingParse value
 func (p *ProtocolState) SetPendingParse(obj mysql.OnQueryObject) {
 	p.pendingParse = obj
+}
+
+// PendingQuerySettings returns the column settings of the statement of the pending COM_STMT_PREPARE
+func (p *ProtocolState) PendingQuerySettings() []*encryptor.QueryDataItem {
+	return p.pendingQuerySettings
+}
+
+// SetPendingQuerySettings remembers the column settings of the statement of the pending COM_STMT_PREPARE
+func (p *ProtocolState) SetPendingQuerySettings(items []*encryptor.QueryDataItem) {
+	p.pendingQuerySettings = items
 }
 
 // SetStmtID set stmtID value
